@@ -710,10 +710,11 @@ package geom
 //@   modifies nothing
 
 //@ func (b *Bounds) Polygons
-//@   prop C01, C02
+//@   prop C01, C02, C16
 //@   mode ufloat
 //@   requires [nonnil] b != nil
-//@   ensures [fresh] fresh(result) && len(result) == 1 && len(result[0]) == 1 && len(result[0][0]) == 4
+//@   ensures [fresh] fresh(result) && len(result) == 1 && len(result[0]) == 1 && len(result[0][0]) == 4 && fresh(result[0]) && fresh(result[0][0])
+//@   ensures [corners] biteq(result[0][0][0].X, b.Min.X) && biteq(result[0][0][0].Y, b.Min.Y) && biteq(result[0][0][1].X, b.Max.X) && biteq(result[0][0][1].Y, b.Min.Y) && biteq(result[0][0][2].X, b.Max.X) && biteq(result[0][0][2].Y, b.Max.Y) && biteq(result[0][0][3].X, b.Min.X) && biteq(result[0][0][3].Y, b.Max.Y)
 //@   defines [rect_region] regionG(result[0]) == rectRegion(*b)
 //@   modifies nothing
 
